@@ -235,18 +235,20 @@ SigIns(g) == IF g.sigrev THEN Rev(g.gins) ELSE g.gins
 SigPos(g, n) == [k \in 1..n |-> IF g.sigrev THEN n - k + 1 ELSE k]
 
 NewSub(nin) ==
-  /\ pc = "build" /\ NSub < MaxSub /\ NOpsOf(CurS) >= 1 /\ TotalOps < MaxOps
+  /\ pc = "build" /\ NSub < MaxSub /\ (NOpsOf(CurS) >= 1 \/ PassThru) /\ TotalOps < MaxOps
   /\ G' = Append(G, EmptySub(nin))
   /\ UNCHANGED <<mode, inmode, outmode, nbufg, qsv, prod, cons, order, R, bufw, qi, insts, pc, why>>
 
 ConsumersOf(s, t) == {i \in 1..NOpsOf(s) : \E j \in 1..Len(G[s].ops[i].ins) : G[s].ops[i].ins[j] = t}
 Produced(s) == UNION {SeqRange(G[s].ops[i].outs) : i \in 1..NOpsOf(s)}
 Sinks(s) == {t \in Produced(s) : ConsumersOf(s, t) = {}}
-\* every graph input is used (converter normal form)
-InputsUsed(s) == \A k \in 1..Len(G[s].gins) : ConsumersOf(s, G[s].gins[k]) # {}
+\* every graph input is used (converter normal form): read by an operator, or returned as it is (outs = the output list chosen)
+InputsUsed(s, outs) == \A k \in 1..Len(G[s].gins) : ConsumersOf(s, G[s].gins[k]) # {} \/ G[s].gins[k] \in SeqRange(outs)
 
 RECURSIVE OutChoices(_)
-OutSets(s) == {S \in SUBSET (Produced(s) \cup (IF PassThru THEN SeqRange(G[s].gins) ELSE {})) : Sinks(s) \subseteq S /\ S \cap Produced(s) # {}}
+\* (a subgraph without operators - an identity signature - returns its inputs)
+OutSets(s) == {S \in SUBSET (Produced(s) \cup (IF PassThru THEN SeqRange(G[s].gins) ELSE {})) :
+                 Sinks(s) \subseteq S /\ S # {} /\ (Produced(s) = {} \/ S \cap Produced(s) # {})}
 \* output lists of subgraph s: ascending, optionally with one output listed a second time at the end
 OutLists(s) == (IF Dup = "only" THEN {} ELSE {AscSeq(S) : S \in OutSets(s)})
                \cup (IF Dup = "no" THEN {} ELSE UNION {{Append(AscSeq(S), x) : x \in S} : S \in OutSets(s)})
@@ -297,8 +299,8 @@ Layouts == (IF Layout = "actsfirst" THEN {} ELSE {"alloc"}) \cup (IF Layout = "a
 Laid(g, lay) == IF lay = "alloc" THEN g ELSE ActsFirst(g)
 
 Seal ==
-  /\ pc = "build" /\ NOpsOf(CurS) >= 1 /\ \A s \in 1..NSub : InputsUsed(s)
-  /\ \E oc \in OutChoices(1) : \E mc \in ModeChoices(1) : \E im \in IOModes : \E om \in IOModes : \E lay \in Layouts : \E sr \in SigRevs :
+  /\ pc = "build" /\ (NOpsOf(CurS) >= 1 \/ PassThru)
+  /\ \E oc \in {c \in OutChoices(1) : \A s \in 1..NSub : InputsUsed(s, c[s])} : \E mc \in ModeChoices(1) : \E im \in IOModes : \E om \in IOModes : \E lay \in Layouts : \E sr \in SigRevs :
        Sealed([s \in 1..NSub |-> Laid([G[s] EXCEPT !.gouts = oc[s], !.sigrev = sr], lay)], mc, im, om)
   /\ UNCHANGED nbufg
 
